@@ -49,18 +49,27 @@ def base_scenarios(tier, seed):
 
 
 def _count(sc):
+    """(number of user-callable invocations of the undisturbed run, the invocation numbers at which a RETRY of a step begins)"""
     lg, _ = scen.run(sc)
+    n, retries, attempts = 0, [], 0
     for e in lg.events:
-        if e["e"] == "ApiRet" and e.get("op") == "integrate":
-            return int(e["ncalls"])
-    return 0
+        if e["e"] == "IntegCall":
+            attempts = 0
+        elif e["e"] == "Attempt":
+            attempts += 1
+            if attempts >= 2:
+                retries.append(int(e.get("ncall", 0)))
+        elif e["e"] == "ApiRet" and e.get("op") == "integrate":
+            n = int(e["ncalls"])
+            break
+    return n, retries
 
 
 def expand(bases, counts, tier, seed):
     rnd = random.Random(seed)
     cap = 60 if tier == "thorough" else 14
     scs, jobs = [], []
-    for sc, n in zip(bases, counts):
+    for sc, (n, retries) in zip(bases, counts):
         ks = list(range(1, n + 1))
         if len(ks) > cap:
             # always keep the first and last few crash points, sample the rest
@@ -68,24 +77,34 @@ def expand(bases, counts, tier, seed):
             rest = [k for k in ks if k not in keep]
             rnd.shuffle(rest)
             ks = sorted(keep | set(rest[:cap - len(keep)]))
+        # a crash INSIDE A RETRY of a step (the integrator then holds slopes of an attempt that was never recorded): the first two
+        # invocations of the first two retries of the run, once as an error and once as a keyboard interrupt
+        inretry = {}
+        for r in retries[:2]:
+            for j, kind in ((1, "KeyboardInterrupt"), (2, "Injected")):
+                if 1 <= r + j <= n:
+                    inretry[r + j] = kind
+        ks = sorted(set(ks) | set(inretry))
         for k in ks:
             f = dict(sc)
             first = dict(sc["ops"][0])
             first["fault"] = k
-            if k % 7 == 3:
+            if (k % 7 == 3 and k not in inretry) or inretry.get(k) == "KeyboardInterrupt":
                 first["exc"] = "KeyboardInterrupt"
             resume = dict(sc["ops"][0])
             ops = [first]
-            if k % 5 == 0:
+            if k % 5 == 0 and k not in inretry:
                 second = dict(sc["ops"][0])
                 second["fault"] = max(1, k // 2)
                 ops.append(second)
             ops.append(resume)
-            if k % 4 == 0:
+            if k % 4 == 0 and k not in inretry:
                 ops += [{"op": "reset"}, dict(sc["ops"][0])]
             f["ops"] = ops
             scs.append(f)
-            if first.get("exc") != "KeyboardInterrupt" and k % 5 and k % 4:
+            if (k % 5 and k % 4) or k in inretry:
+                # resumed vs undisturbed run (after an interrupt as after an error: the integrator's cached slopes may belong to an
+                # attempt that was never recorded)
                 jobs.append((sc, f))
     return scs, jobs
 
@@ -119,7 +138,8 @@ def check(run, replay=None):
             run.mc("OdeSystemMC", "OdeSystem_events")
         bases = gen.number(base_scenarios(run.tier, run.seed), "C12b_")
         counts = core.pool_map(_count, bases)
-        run.notes["invocations_per_base_scenario"] = {"min": min(counts), "max": max(counts), "total": sum(counts)}
+        run.notes["invocations_per_base_scenario"] = {"min": min(c[0] for c in counts), "max": max(c[0] for c in counts), "total": sum(c[0] for c in counts),
+                                                      "base_scenarios_with_a_retry": sum(1 for c in counts if c[1])}
         scs, jobs = expand(bases, counts, run.tier, run.seed)
         # tolerances that cannot be met: the right-hand side is undefined beyond |t| = 1/2; the failure must be reported and resumable
         for m in ["RK45CK", "DOPRI45", "RadauIIA5"] + (["RK87", "AHE", "LobattoIIIC4"] if run.tier == "thorough" else []):
